@@ -23,11 +23,14 @@ import (
 
 // Mutant is one seeded edit of the real source.
 type Mutant struct {
-	ID     string `json:"id"`
-	Prop   string `json:"prop"`
-	File   string `json:"file"`
-	Old    string `json:"old"`
-	New    string `json:"new"`
+	ID   string `json:"id"`
+	Prop string `json:"prop"`
+	File string `json:"file"`
+	Old  string `json:"old"`
+	New  string `json:"new"`
+	// Old2/New2: an optional second edit of the same file (typically the import the first needs)
+	Old2   string `json:"old2,omitempty"`
+	New2   string `json:"new2,omitempty"`
 	Expect string `json:"expect"` // rule-id prefix that must report a non-discharged obligation
 	Note   string `json:"note"`
 }
@@ -145,6 +148,12 @@ func RunMutantWorker(repo, verif, id string) int {
 		return emit(Result{ID: id, Status: "skipped", Detail: "textual anchor not present in the current tree"})
 	}
 	mutated := strings.Replace(string(src), m.Old, m.New, 1)
+	if m.Old2 != "" {
+		if !strings.Contains(mutated, m.Old2) {
+			return emit(Result{ID: id, Status: "skipped", Detail: "second textual anchor not present in the current tree"})
+		}
+		mutated = strings.Replace(mutated, m.Old2, m.New2, 1)
+	}
 	p, err := eng.Load(eng.LoadOpts{Dir: repo, Overlay: map[string][]byte{path: []byte(mutated)}})
 	if err != nil {
 		return emit(Result{ID: id, Status: "no-compile", Detail: firstLine(err.Error())})
